@@ -1281,7 +1281,11 @@ static void uv__stream_connect(uv_stream_t* stream) {
   stream->connect_req = NULL;
   uv__req_unregister(stream->loop);
 
-  if (error < 0 || uv__queue_empty(&stream->write_queue)) {
+  /* Keep POLLOUT armed while a shutdown is pending: the next wake-up runs
+   * uv__stream_io, which drains and performs the shutdown. */
+  if (error < 0 ||
+      (uv__queue_empty(&stream->write_queue) &&
+       !uv__is_stream_shutting(stream))) {
     uv__io_stop(stream->loop, &stream->io_watcher, POLLOUT);
   }
 
@@ -1294,6 +1298,11 @@ static void uv__stream_connect(uv_stream_t* stream) {
   if (error < 0) {
     uv__stream_flush_write_queue(stream, UV_ECANCELED);
     uv__write_callbacks(stream);
+    /* A shutdown queued behind the writes is reported, too (ENOTCONN). */
+    if (uv__stream_fd(stream) != -1 &&
+        uv__queue_empty(&stream->write_queue) &&
+        uv__queue_empty(&stream->write_completed_queue))
+      uv__drain(stream);
   }
 }
 
